@@ -44,6 +44,35 @@ class MachineryError(Exception):
     pass
 
 
+def compile_failure_violation(ctx, what, compiler_output):
+    """The correspondence harness (or a compile-time leg) no longer compiles against $VERIF_REPO.  On the unchanged tree
+    it compiles (that is checked on every run), so the tie between model and code is broken by the tree: the property is
+    no longer shown to hold.  A `static assertion failed` of the harness' compile-time matrices is a concrete failing
+    input (the assertion names it); any other diagnostic is reported as no-failing-input-found with the diagnostic in
+    the replay.  Returns the exit status (1)."""
+    static = bool(re.search(r"static assertion failed|static_assert", compiler_output))
+    first = [l for l in compiler_output.splitlines() if " error" in l or "static assertion" in l][:12]
+    payload = {"kind": "harness_compile", "cases": [],
+               "correspondence": what,
+               "impl": "does not compile: " + (first[0][-400:] if first else "see compiler_output"),
+               "model": "-", "spec": "-", "std": "-",
+               "compiler_output": compiler_output[-6000:], "first_errors": first,
+               "failing_input_found": static,
+               "explanation": ("a compile-time assertion of the harness about the library's behaviour fails (the assertion text is "
+                               "the failing input)" if static else
+                               "the correspondence between model and code can no longer be run: %s no longer compiles against %s; "
+                               "no failing input could be searched for" % (what, REPO))}
+    ctx.violation(payload, found=static)
+    try:
+        ctx.write_evidence({"explanation": "the run stopped at the harness build: %s does not compile against %s (reported as a violation, "
+                            "see the replay)" % (what, REPO), "evaluations": 0, "distinct_nontrivial": 0,
+                            "rule": "no case was run", "samples": [first[:3] or ["compile failure"]]}, [], level="other")
+    except Exception:
+        pass
+    log("%s %s: the harness does not compile against the tree, 1 violations, %.1fs" % (ctx.prop, ctx.tier, time.time() - ctx.t0))
+    return 1
+
+
 def log(msg):
     print(msg, flush=True)
 
